@@ -149,7 +149,11 @@ def b_str(eng, n, st):
     if isinstance(v.ty, StrT):
         return v
     if isinstance(v.ty, IntT):
-        return Val(itoa(eng)(v.t), STR)
+        t_ = itoa(eng)(v.t)
+        st.assume(atoi(eng)(t_) == v.t)
+        return Val(t_, STR)
+    if isinstance(v.ty, ListT) and isinstance(v.ty.elt, StrT):
+        return v  # str() of a string that is modelled as a field/token list
     raise Unsupported("str() of %s" % v.ty)
 
 
@@ -389,7 +393,48 @@ def b_keys(eng, n, st):
     raise Unsupported("keys() of %s" % v.ty)
 
 
+def b_getattr(eng, n, st):
+    obj = eng.ev(n.args[0], st)
+    name = eng.ev(n.args[1], st)
+    ty = obj.ty
+    if not isinstance(ty, ObjT) or not isinstance(name.ty, StrT):
+        raise Unsupported("getattr form at line %s" % n.lineno)
+    groups = {}
+    for f in ty.order:
+        groups.setdefault(ty.fields[f].name, []).append(f)
+    # the fields the name can denote on this path decide the result type
+    cands = []
+    for f in ty.order:
+        s = z3.Solver()
+        s.set("timeout", 500)
+        s.add(*st.pc)
+        s.add(name.t == str_code(f))
+        if s.check() != z3.unsat:
+            cands.append(f)
+    if not cands:
+        eng.oblige(st, "safety", "AttributeError:getattr", z3.BoolVal(False), n)
+        raise PathDead()
+    tys = {ty.fields[f].name for f in cands}
+    if len(tys) != 1:
+        raise Unsupported("getattr may denote fields of different types %s at line %s" % (cands, n.lineno))
+    eng.oblige(st, "safety", "AttributeError:getattr(%s)" % ast.unparse(n.args[1]), z3.Or(*[name.t == str_code(f) for f in cands]), n)
+    t = ty.get(obj.t, cands[-1])
+    for f in reversed(cands[:-1]):
+        t = z3.If(name.t == str_code(f), ty.get(obj.t, f), t)
+    return Val(t, ty.fields[cands[0]])
+
+
+def b_startswith(eng, recv, n, st):
+    a = eng.ev(n.args[0], st)
+    sv = z3.simplify(a.t)
+    from .ty import str_of_code
+    if z3.is_int_value(sv) and len(str_of_code(sv.as_long())) == 1:
+        return Val(eng.uf("str_head", [STR], STR)(recv.t) == a.t, BOOL)
+    raise Unsupported("startswith form at line %s" % n.lineno)
+
+
 BUILTINS = {
+    "getattr": b_getattr,
     "untok": b_untok, "cat": b_cat, "keys": b_keys,
     "forall": b_forall, "exists": b_exists, "implies": b_implies, "iff": b_iff, "old": b_old, "len": b_len, "int": b_int,
     "str": b_str, "min": b_minmax("min"), "max": b_minmax("max"), "abs": b_abs, "list": b_list, "isinstance": b_isinstance,
@@ -399,6 +444,17 @@ BUILTINS = {
 
 LIBCALLS = {}
 PATTERN_CALLS = {}
+
+
+def p_tab_join(eng, n, st):
+    v = eng.ev(n.args[0], st)
+    if isinstance(v.ty, ListT) and isinstance(v.ty.elt, StrT):
+        eng.assumptions_used.add("assumed: '\\t'.join(fields) is the tab-separated line with exactly these fields (fields contain no tab)")
+        return Val(v.t, v.ty, meta={"leading_tab": False})
+    raise Unsupported("'\\t'.join of %s at line %s" % (v.ty, n.lineno))
+
+
+PATTERN_CALLS["'\\t'.join"] = p_tab_join
 
 
 # ---- methods on values ---------------------------------------------------------------------------------
@@ -531,6 +587,7 @@ def m_dict_get(eng, recv, n, st):
 
 
 METHODS = {
+    ("StrT", "startswith"): b_startswith,
     ("ListT", "append"): m_list_append, ("EmptyListT", "append"): m_list_append, ("ListT", "reverse"): m_list_reverse,
     ("ListT", "sort"): m_list_sort, ("ListT", "count"): m_list_count,
     ("SetT", "add"): m_set_add, ("EmptySetT", "add"): m_set_add, ("SetT", "remove"): m_set_remove, ("SetT", "discard"): m_set_discard,
